@@ -182,6 +182,15 @@ def side_conditions(ctx, rid):
                 if psrc[0] == "call" and ends(callee_def(psrc[1]), "render::Renderer>::empty"):
                     okc = True
     ctx.check(okc, rid, "side:append_columns-only-with-a-nonempty-column", ac.span, ac.id, "")
+    # S11: the render walk never answers Nothing.  tree_map_reduce runs a parent's postfn only for children that produced a
+    # result; the list arms push a sub-renderer in prefn and pop it in postfn, so a child answering Nothing would leave a
+    # renderer on the stack and trip the `subrender.len() == 1` assertion of TextRenderer::into_inner.
+    drn_ = F.one("do_render_node")
+    nothings = [st["span"] for b2 in [drn_] + [c for _x, c in transitive_closures(F, drn_)] for x in b2.reachable() for st in b2.stmts(x)
+                if (st.get("rv") or {}).get("variant") == "Nothing" and ends((st.get("rv") or {}).get("adt"), "TreeMapResult")]
+    ctx.check(not nothings, rid, "side:render-walk-never-answers-Nothing", nothings[0] if nothings else drn_.span, drn_.id,
+              "do_render_node returns TreeMapResult::Nothing (%s): the parent's postfn is skipped for such a child, the sub-renderer "
+              "its prefn pushed stays on the stack and into_inner's assertion fails" % nothings[:2])
     # S10 (INV-REMAP / INV-SBS, see tables/mag_invariants.txt and the SBS rows): num_cells is read only by
     # RenderTable::new, after the remap loop; render_table_row (side-by-side) is chosen exactly when !vertical
     nc = F.one("RenderTableRow::num_cells")
